@@ -46,7 +46,8 @@ func cmdWhile(p *lang.Process) error {
 
 		for {
 			if p.HasCancelled() {
-				return errors.New(errCancelled)
+				// `break`, `continue` and `return` end a loop by cancelling it: not an error
+				return nil
 			}
 
 			iteration++
